@@ -170,10 +170,12 @@ pub fn lockstep(api: &Api, it: &InTuple, seed: u64, cx: &mut Cx) {
     };
     ob.eq("sreg_finish", "password file", &file, &upload);
     // ---- login
+    t.take_log();
     let (ke1, clogin) = match api.login_start(&mut t, &p.pw) {
         Ok(x) => x,
         Err(e) => return fail(ob.cx, "login_start", &e),
     };
+    let login_start_draws: Vec<u8> = t.take_draws().concat();
     if clogin.len() != nok + noe + NN + npk + nsk + NN || ke1.len() != noe + NN + npk {
         ob.cx.violate("login_start/length", format!("client login state has {} bytes, KE1 {}", clogin.len(), ke1.len()));
         return;
@@ -189,6 +191,17 @@ pub fn lockstep(api: &Api, it: &InTuple, seed: u64, cx: &mut Cx) {
     if !sp.ke_g().scalar_valid(&cesk) {
         ob.cx.violate("login_start/ephemeral-key", "the client's ephemeral private key is not a valid non-zero scalar".into());
         return;
+    }
+    // RFC 9807 6.4.3: the key share is DeriveDiffieHellmanKeyPair(seed) for a random seed.  Which generator bytes are the
+    // seed is the implementation's business (no assumption on order or request sizes): it has to be SOME contiguous
+    // Nseed-byte window of what this call drew.
+    let ns = sp.nseed();
+    if login_start_draws.len() <= 4096 {
+        ob.compared += 1;
+        if !(0..(login_start_draws.len() + 1).saturating_sub(ns)).any(|o| sp.derive_dh_sk(&login_start_draws[o..o + ns]) == cesk) {
+            ob.mismatches += 1;
+            ob.cx.violate("login_start/keyshare-derivation", format!("the client's key share is not DeriveDiffieHellmanKeyPair(seed) for any {}-byte window of the {} generator bytes this call drew", ns, login_start_draws.len()));
+        }
     }
     ob.eq("login_start", "KE1", &ke1, &cat(&[&sp.oprf.blind(&p.pw, &lblind), &cnonce, &sp.ke.pubkey(&cesk)]));
     ob.eq("login_start", "client login state", &clogin, &cat(&[&lblind, &ke1, &cesk, &cnonce]));
@@ -238,10 +251,21 @@ pub fn lockstep(api: &Api, it: &InTuple, seed: u64, cx: &mut Cx) {
         Some(session_key)
     };
     // server, record present
+    t.take_log();
     let (ke2, slogin) = match api.slogin_start(&mut t, &Blob::n(&setup), Some(&Blob::n(&file)), &Blob::n(&ke1), &p.cid, o(&p.ctx), o(&p.idu), ids_v.as_deref()) {
         Ok(x) => x,
         Err(e) => return fail(ob.cx, "slogin_start", &e),
     };
+    let slogin_start_draws: Vec<u8> = t.take_draws().concat();
+    if it.tape == 0 && slogin_start_draws.len() <= 4096 && ke2.len() == sp.len_of(crate::refmodel::Kind::CredResp) {
+        // same for the server's key share (only its public half is observable); first tape of every input tuple
+        let epk = lay2[4].of(&ke2);
+        ob.compared += 1;
+        if !(0..(slogin_start_draws.len() + 1).saturating_sub(ns)).any(|o| sp.ke.pubkey(&sp.derive_dh_sk(&slogin_start_draws[o..o + ns])) == epk) {
+            ob.mismatches += 1;
+            ob.cx.violate("slogin_start/keyshare-derivation", format!("the server's key share is not DeriveDiffieHellmanKeyPair(seed) for any {}-byte window of the {} generator bytes this call drew", ns, slogin_start_draws.len()));
+        }
+    }
     let sk_model = expect_ke2(&mut ob, "slogin_start", &ke2, &slogin, &st.client_pk, &st.client_sk, Some(&st.masking_key), &st.envelope);
     // client finish
     let (ke3, sk_c, export2, spk2) = match api.login_finish(&Blob::n(&clogin), &p.pw, &Blob::n(&ke2), o(&p.ctx), o(&p.idu), ids_v.as_deref(), p.ksf) {
